@@ -60,6 +60,8 @@ def load():
         for spec in getattr(m, "SPECS", []):
             from hexvc.indicators import SPEC_REGISTRY
             SPEC_REGISTRY[spec.cls] = spec
+            if spec.window is not None and "C07" not in spec.props:
+                spec.props.append("C07")  # the step task carries the work-bound (cost) obligations
             for var in list(spec.variants) + [dict(spec.variants[0], mode="index")]:
                 vname = ",".join(f"{k}={v}" for k, v in var.items())
                 reg.ind_tasks[spec.cls + (f"[{vname}]" if vname else "")] = (spec, var)
